@@ -8,7 +8,8 @@ Local Open Scope Q_scope.
 
 (* observed outcome of one call: nothing, points, or an exception *)
 Inductive obs := ONone | OPts (pts : list (list fl)) | OOther.
-Inductive case := CScript (ops : list (cm_op Q)) (results : list (result obs)).
+(* attrs = dir(CoordinateManager()) as read from the code on this run; pa = the instance attribute holding the points *)
+Inductive case := CScript (attrs : list string) (pa : string) (ops : list (cm_op Q)) (results : list (result obs)).
 
 (* run the model with the stored pairs snapped to dyadics after every step (see K_C03.snap_state) *)
 Definition snap_cm (st : cm_state (F:=Q)) : cm_state (F:=Q) :=
@@ -28,11 +29,11 @@ Definition read_mag (st : cm_state (F:=Q)) (o : cm_op Q) : Q :=
   | CGetAttr n => match cm_points st with Some (tag, _) => between_mag st tag n | None => 1 end
   | _ => 1
   end.
-Fixpoint run (ops : list (cm_op Q)) (st : cm_state (F:=Q)) : list (result (cm_out Q) * Q) :=
+Fixpoint run (attrs : list string) (pa : string) (ops : list (cm_op Q)) (st : cm_state (F:=Q)) : list (result (cm_out Q) * Q) :=
   match ops with
   | [] => []
-  | o :: r => let sr := cm_step QOps st o in
-              (snd sr, read_mag st o) :: run r (snap_cm (fst sr))
+  | o :: r => let sr := cm_step QOps attrs pa st o in
+              (snd sr, read_mag st o) :: run attrs pa r (snap_cm (fst sr))
   end.
 
 Definition out_agree (mag : Q) (m : cm_out Q) (o : obs) : bool :=
@@ -44,6 +45,6 @@ Definition out_agree (mag : Q) (m : cm_out Q) (o : obs) : bool :=
   end.
 Definition check_case (c : case) : bool :=
   match c with
-  | CScript ops results =>
-      all2 (fun mr o => res_agree (out_agree (snd mr)) (fst mr) o) (run ops (cm_init (F:=Q))) results
+  | CScript attrs pa ops results =>
+      all2 (fun mr o => res_agree (out_agree (snd mr)) (fst mr) o) (run attrs pa ops (cm_init (F:=Q))) results
   end.
